@@ -27,3 +27,17 @@ Definition sort_str (l : list str) : list str := fold_right insert_str [] l.
 (** [for file in output_dir.glob('*.mm'): file.unlink()] *)
 Definition unlink (f : str) (fs : list str) : list str := filter (fun g => negb (str_eqb f g)) fs.
 Definition unlink_all (files fs : list str) : list str := fold_left (fun acc f => unlink f acc) files fs.
+
+(** [GlobalScope.unambiguize] (metamath/converter/scope.py): the selected ambiguous [#Variable] names are
+    resolved one by one, [variables = sorted(selected); ... var = variables.pop()] (largest first); the i-th
+    resolved variable gets the number [b + i] in the scope that makes every choice the same way ([b] = number of
+    variables of that kind the scope starts with).  [unambiguize_numbers_in_order] is the same with the
+    resolution order left open (what a [set.pop()] would give). *)
+Fixpoint number_from (b : nat) (l : list str) : list (str * nat) :=
+  match l with
+  | [] => []
+  | v :: r => (v, b) :: number_from (S b) r
+  end.
+Definition unambiguize_numbers_in_order (b : nat) (order : list str) : list (str * nat) := number_from b order.
+Definition unambiguize_numbers (b : nat) (selected : list str) : list (str * nat) :=
+  unambiguize_numbers_in_order b (rev (sort_str selected)).
